@@ -4,6 +4,7 @@ import (
 	"fmt"
 	"go/token"
 	"go/types"
+	"os"
 	"sort"
 	"strings"
 
@@ -100,6 +101,7 @@ func oneField(i int) fset { return fset{fields: map[int]bool{i: true}} }
 type ParamSummary struct {
 	Mutates      fset // first-level fields (of the struct / pointee) through which it writes; all for non-struct parameters
 	ReturnsAlias fset // fields of the parameter a result may alias
+	ReturnsFull  fset // … and the result may share its own backing array (not only element references in a fresh slice)
 }
 
 // EffectsEngine computes shared-derived values and writes.
@@ -151,12 +153,15 @@ func NewEffectsEngine(p *Prog, exempt func(fn *ssa.Function, in ssa.Instruction)
 						s.Mutates, ch = s.Mutates.union(sd)
 						changed = changed || ch
 					}
-					ret := false
+					ret, full := false, false
 					Instrs(fn, func(in ssa.Instruction) {
 						if r, ok := in.(*ssa.Return); ok {
 							for _, res := range r.Results {
 								if !st.taint[res].empty() && hasRefs(res.Type(), 0) {
 									ret = true
+									if !st.elemOnly[res] || len(r.Results) != 1 {
+										full = true
+									}
 								}
 							}
 						}
@@ -164,6 +169,11 @@ func NewEffectsEngine(p *Prog, exempt func(fn *ssa.Function, in ssa.Instruction)
 					if ret {
 						var ch bool
 						s.ReturnsAlias, ch = s.ReturnsAlias.union(sd)
+						changed = changed || ch
+					}
+					if full {
+						var ch bool
+						s.ReturnsFull, ch = s.ReturnsFull.union(sd)
 						changed = changed || ch
 					}
 				}
@@ -207,15 +217,31 @@ func allocRoot(addr ssa.Value) (*ssa.Alloc, int) {
 
 // run computes taint and writes of fn from initial taints (seed is an additional predicate for instruction values).
 func (e *EffectsEngine) run(fn *ssa.Function, initial map[ssa.Value]fset, seed func(ssa.Value) bool) *runState {
+	if seed == nil {
+		return e.runF(fn, initial, nil)
+	}
+	return e.runF(fn, initial, func(v ssa.Value) fset {
+		if seed(v) {
+			return allFields
+		}
+		return fset{}
+	})
+}
+
+// runF is run with a field-precise seed (the first-level fields of the seeded value that are shared).
+func (e *EffectsEngine) runF(fn *ssa.Function, initial map[ssa.Value]fset, seed func(ssa.Value) fset) *runState {
 	st := &runState{taint: map[ssa.Value]fset{}, why: map[ssa.Value]ssa.Value{}, elemOnly: map[ssa.Value]bool{}}
 	allocTaint := map[*ssa.Alloc]fset{}
 	allocFull := map[*ssa.Alloc]bool{} // some value stored in the variable shares its own backing array
+	// seededOnly: the value's taint is exactly what the field-precise seed says of it
+	seededOnly := map[ssa.Value]bool{}
 	add := func(v ssa.Value, f fset, from ssa.Value) bool {
 		if v == nil || f.empty() {
 			return false
 		}
 		n, ch := st.taint[v].union(f)
 		if ch || (st.taint[v].empty() && !n.empty()) {
+			delete(seededOnly, v)
 			if _, has := st.why[v]; !has && from != nil {
 				st.why[v] = from
 			}
@@ -229,13 +255,14 @@ func (e *EffectsEngine) run(fn *ssa.Function, initial map[ssa.Value]fset, seed f
 	}
 	if seed != nil {
 		for _, par := range fn.Params {
-			if seed(par) {
-				st.taint[par] = allFields
+			if f := seed(par); !f.empty() {
+				st.taint[par] = f
+				seededOnly[par] = true
 			}
 		}
 		for _, fv := range fn.FreeVars {
-			if seed(fv) {
-				st.taint[fv] = allFields
+			if f := seed(fv); !f.empty() {
+				st.taint[fv] = f
 			}
 		}
 	}
@@ -332,12 +359,42 @@ func (e *EffectsEngine) run(fn *ssa.Function, initial map[ssa.Value]fset, seed f
 		changed = false
 		for _, b := range fn.Blocks {
 			for _, in := range b.Instrs {
-				if v, isVal := in.(ssa.Value); isVal && seed != nil && st.taint[v].empty() && seed(v) {
-					st.taint[v] = allFields
-					changed = true
+				if v, isVal := in.(ssa.Value); isVal && seed != nil && st.taint[v].empty() {
+					if f := seed(v); !f.empty() {
+						st.taint[v] = f
+						seededOnly[v] = true
+						changed = true
+					}
 				}
 				switch x := in.(type) {
 				case *ssa.Store:
+					// a shared reference stored into an element of a fresh slice: the slice's elements carry it
+					if any(x.Val) && hasRefs(x.Val.Type(), 0) {
+						addr := x.Addr
+						for {
+							if fa, ok := addr.(*ssa.FieldAddr); ok {
+								addr = fa.X
+								continue
+							}
+							break
+						}
+						if ia, ok := addr.(*ssa.IndexAddr); ok {
+							if _, isSlice := ia.X.Type().Underlying().(*types.Slice); isSlice {
+								root := ia.X
+								for {
+									if sl, ok := root.(*ssa.Slice); ok {
+										root = sl.X
+										continue
+									}
+									break
+								}
+								if st.taint[root].empty() {
+									st.elemOnly[root] = true
+									changed = add(root, allFields, x.Val) || changed
+								}
+							}
+						}
+					}
 					if any(x.Val) && hasRefs(x.Val.Type(), 0) {
 						if al, _ := allocRoot(x.Addr); al != nil && !st.elemOnly[x.Val] && !allocFull[al] {
 							allocFull[al] = true
@@ -391,6 +448,9 @@ func (e *EffectsEngine) run(fn *ssa.Function, initial map[ssa.Value]fset, seed f
 				case *ssa.Phi:
 					allEO, anyT := true, false
 					for _, ed := range x.Edges {
+						if ed == ssa.Value(x) {
+							continue // a loop-carried variable left unchanged on some path
+						}
 						if any(ed) {
 							anyT = true
 							if !st.elemOnly[ed] {
@@ -420,6 +480,9 @@ func (e *EffectsEngine) run(fn *ssa.Function, initial map[ssa.Value]fset, seed f
 						changed = add(x, allFields, x.Tuple) || changed
 					}
 				case *ssa.Field:
+					if seededOnly[x.X] && seededOnly[x] {
+						break // a struct projected out of a seeded struct: the seed describes it precisely
+					}
 					if st.taint[x.X].has(x.Field) && hasRefs(x.Type(), 0) {
 						changed = add(x, allFields, x.X) || changed
 					}
@@ -436,10 +499,15 @@ func (e *EffectsEngine) run(fn *ssa.Function, initial map[ssa.Value]fset, seed f
 						changed = add(x, allFields, x.X) || changed
 					}
 				case *ssa.Lookup:
-					if any(x.X) && hasRefs(x.Type(), 0) {
+					if any(x.X) && (x.CommaOk || hasRefs(x.Type(), 0)) {
 						changed = add(x, allFields, x.X) || changed
 					}
 				case *ssa.Slice:
+					// slice of a local array (variadic arguments, array literals) holding shared references
+					if al, ok := x.X.(*ssa.Alloc); ok && !allocTaint[al].empty() && st.taint[x].empty() {
+						st.elemOnly[x] = true
+						changed = add(x, allFields, al) || changed
+					}
 					if any(x.X) {
 						if st.elemOnly[x.X] && st.taint[x].empty() {
 							st.elemOnly[x] = true
@@ -478,6 +546,16 @@ func (e *EffectsEngine) run(fn *ssa.Function, initial map[ssa.Value]fset, seed f
 						if sums, ok := e.summaries[callee]; ok {
 							for i, a := range x.Call.Args {
 								if i < len(sums) && st.taint[a].intersects(sums[i].ReturnsAlias) && hasRefs(x.Type(), 0) {
+									// only element references are shared when every aliasing result is a fresh slice
+									_, isSlice := x.Type().Underlying().(*types.Slice)
+									if isSlice && !st.taint[a].intersects(sums[i].ReturnsFull) {
+										if st.taint[x].empty() {
+											st.elemOnly[x] = true
+										}
+									} else if st.elemOnly[x] {
+										delete(st.elemOnly, x)
+										changed = true
+									}
 									changed = add(x, allFields, a) || changed
 								}
 							}
@@ -598,6 +676,11 @@ func (e *EffectsEngine) run(fn *ssa.Function, initial map[ssa.Value]fset, seed f
 			if callee := x.Call.StaticCallee(); callee != nil {
 				if sums, ok := e.summaries[callee]; ok {
 					for i, a := range x.Call.Args {
+						if seededOnly[a] {
+							// shared by its type alone: the callee's parameter is seeded the same way when the callee
+							// itself is scanned, with the precision of the seed (summaries stop at first-level fields)
+							continue
+						}
 						if i < len(sums) && st.taint[a].intersects(sums[i].Mutates) {
 							st.writes = append(st.writes, SharedWrite{fn, in, "call " + callee.Name() + " (writes through its argument)", fmt.Sprintf("argument %d is shared: %s", i, chain(a))})
 						}
@@ -643,6 +726,22 @@ func (e *EffectsEngine) WritesFrom(fn *ssa.Function, seed func(ssa.Value) bool) 
 	return e.run(fn, nil, seed).writes
 }
 
+// WritesFromFields is WritesFrom with a field-precise seed: the seed returns all=true for a value shared as a whole,
+// or the first-level struct fields of the value that are shared (none: not a seed).
+func (e *EffectsEngine) WritesFromFields(fn *ssa.Function, seed func(ssa.Value) (all bool, fields []int)) []SharedWrite {
+	return e.runF(fn, nil, func(v ssa.Value) fset {
+		all, fields := seed(v)
+		if all {
+			return allFields
+		}
+		out := fset{}
+		for _, f := range fields {
+			out, _ = out.union(oneField(f))
+		}
+		return out
+	}).writes
+}
+
 // Summary returns the parameter summaries of fn.
 func (e *EffectsEngine) Summary(fn *ssa.Function) []ParamSummary { return e.summaries[fn] }
 
@@ -680,5 +779,47 @@ func SortWrites(p *Prog, ws []SharedWrite) {
 
 // ParamWrites lists the writes of fn reachable from parameter i (for diagnosis of a summary).
 func (e *EffectsEngine) ParamWrites(fn *ssa.Function, i int) []SharedWrite {
-	return e.run(fn, map[ssa.Value]fset{fn.Params[i]: allFields}, nil).writes
+	st := e.run(fn, map[ssa.Value]fset{fn.Params[i]: allFields}, nil)
+	if os.Getenv("WRV_DEBUG_TAINT") != "" {
+		Instrs(fn, func(in ssa.Instruction) {
+			if v, ok := in.(ssa.Value); ok && !st.taint[v].empty() {
+				fmt.Fprintf(os.Stderr, "  TAINT p%d %s = %s  eo=%v\n", i, v.Name(), in.String(), st.elemOnly[v])
+			}
+		})
+	}
+	return st.writes
+}
+
+// ParamTaint returns the shared-derived predicate of fn when parameter i is shared as a whole.
+func (e *EffectsEngine) ParamTaint(fn *ssa.Function, i int) func(ssa.Value) bool {
+	st := e.run(fn, map[ssa.Value]fset{fn.Params[i]: allFields}, nil)
+	return func(v ssa.Value) bool { return !st.taint[v].empty() }
+}
+
+// AppendOperands lists the values appended by an append call (through the variadic array, or the spread slice itself).
+func AppendOperands(call *ssa.Call) []ssa.Value {
+	if len(call.Call.Args) < 2 {
+		return nil
+	}
+	sl, ok := call.Call.Args[1].(*ssa.Slice)
+	if !ok {
+		return []ssa.Value{call.Call.Args[1]}
+	}
+	al, ok := sl.X.(*ssa.Alloc)
+	if !ok || al.Referrers() == nil {
+		return []ssa.Value{call.Call.Args[1]}
+	}
+	var out []ssa.Value
+	for _, r := range *al.Referrers() {
+		ia, ok := r.(*ssa.IndexAddr)
+		if !ok || ia.Referrers() == nil {
+			continue
+		}
+		for _, rr := range *ia.Referrers() {
+			if s, ok := rr.(*ssa.Store); ok && s.Addr == ssa.Value(ia) {
+				out = append(out, s.Val)
+			}
+		}
+	}
+	return out
 }
